@@ -80,15 +80,16 @@ def run(P, M, tables):
     findings, obl, samples = [], [], []
     fns = value_path(P, M)
     sites = [s for s in census(P, fns) if not (s.kind == "otround" and s.desc in ("f64->f64", "f32->f32"))]
+    from common import norm_fn
     table = {(e["fn"], e["kind"], e["desc"]): e for e in tables.get("e6_narrowing", {}).get("sites", [])}
     grouped = defaultdict(list)
     for s in sites:
-        grouped[(s.fn, s.kind, s.desc)].append(s)
+        grouped[(norm_fn(s.fn), s.kind, s.desc)].append(s)
     used = set()
     nb = nf = 0
     for key, ss in sorted(grouped.items()):
         e = table.get(key)
-        loc = P.site_loc(key[0], ss[0].line)
+        loc = P.site_loc(ss[0].fn, ss[0].line)
         what = {"cast": "integer cast", "fcast": "float-to-int cast (saturating)", "arith": "narrow-integer arithmetic (panics in debug, wraps in release)",
                 "otround": "saturating ot_round conversion", "fixedconv": "saturating fixed-point conversion"}[key[1]]
         if e is None or len(ss) > e.get("count", 1):
